@@ -88,10 +88,13 @@ def gen_cases(tier, seed):
         for t0 in CLOCKS:
             for fab, reg in (("olA", "disl"), ("enAB", "yield"), ("olC", "minvisc")):
                 keys.append(dict(part="single", F0="generic", flow=fl, fab=fab, reg=reg, vol="uniform", t0=t0, **{k: AXES[k][0] for k in AXES}))
+    for fab, reg in STICKY:
+        keys.append(dict(part="sticky", fab=fab, reg=reg))
     return keys
 
 
 CLOCKS = ["2e5", "-3e7", "1e9"]
+STICKY = [("olA", "disl"), ("enAB", "yield"), ("olC", "maxvisc")]
 
 
 def shifted(fl, t0):
@@ -99,6 +102,48 @@ def shifted(fl, t0):
     if t0 == 0.0:
         return fl
     return H.Flow(fl.name + "@t0", lambda t, x: fl.L(t - t0, x), lambda t: fl.x(t - t0), const=fl.const)
+
+
+def run_sticky(key):
+    """Solver options passed to ONE call (the documented **kwargs pass-through: a deliberately
+    loose rtol for a quick preview) do not leak into later default calls: an identical default
+    update after it still returns the solution within the stated bound (seed C06i: the options
+    dictionary aliased to a module-level default)."""
+    from scipy.linalg import expm
+
+    res = empty_result()
+    ph, fb = alph.FABRICS[key["fab"]]
+    prm = H.params_for(ph, "default")
+    rg = np.zeros((3, 3))
+    rg[0, 1], rg[1, 0] = 8.0, -8.0
+    L = rg + np.diag([0.3, -0.3, 0.0])
+    fl = H.Flow("spin8", lambda t, x: L.copy(), lambda t: np.zeros(3), const=L)
+    F0 = H.f0("generic")
+    ref = expm(L * 3.0) @ F0
+    outs = []
+    for step in ("default_before", "loose", "default_after"):
+        m = H.build_mineral(dict(fab=key["fab"], reg=key["reg"], tex="random", vol="uniform", ng=5, prm="default"))
+        kw = dict(rtol=0.5) if step == "loose" else {}
+        res["n"] += 1
+        res["trans"] += 1
+        F = np.asarray(H.update(m, prm, F0.copy(), fl, 0.0, 3.0, **kw))
+        outs.append(F)
+        if step != "loose":
+            res["clauses"]["F_solution"] = res["clauses"].get("F_solution", 0) + 1
+            err = float(np.abs(F - ref).max() / np.abs(ref).max())
+            b = H.ode_bound(1, fl.strain(0.0, 3.0))
+            res["notes"]["max_sticky_rel_err"] = max(res["notes"].get("max_sticky_rel_err", 0.0), err)
+            if not err <= b:
+                res["viol"].append({"clause": "F_solution", "key": dict(key, step=step), "detail": {"rel_err": err, "bound": b}})
+    res["clauses"]["options_do_not_leak"] = 1
+    if not np.array_equal(outs[0], outs[2]):
+        res["notes"]["default_call_changed_after_call_with_options"] = 1
+    res["states"] = 3
+    res["nontrivial"].append(digest(key))
+    res["outcomes"].append(digest(np.round(outs[0], 6)))
+    res["obs"] = digest(outs[0], outs[2])
+    res["sample"] = {"case": key}
+    return res
 
 
 def partitions(span):
@@ -150,6 +195,8 @@ def trace_integral(fl, t0, t1):
 
 
 def run_case(key):
+    if key["part"] == "sticky":
+        return run_sticky(key)
     res = empty_result()
     T0 = float(key.get("t0", 0.0))
     fl0 = H.flow(key["flow"])  # the reference solution is always computed on the unshifted clock
